@@ -156,10 +156,18 @@ def make (spec0):
         rad = scale * 50.0
         arc = dict (k = 'a', n = n, radius = rad, a1 = 0.0, a2 = 360.0, r = 1e-4 * seg_min, tag = None)
         tr  = [100 * scale, 0, 0]
+    ro = np.random.default_rng ([spec0 ['seed'], 125, spec0 ['i']])
+    if arc is None and not gnd and ro.random () < 0.12:
+        # an open arc with any start angle, sweep and number of segments (far away from the rest): n - 1 pulses
+        n  = int (ro.choice ([15, 23, 30, 46, 60, 61, int (ro.integers (3, 100))]))
+        a1 = float (ro.choice ([30.0, 10.0, -170.0, 0.0, float (np.round (ro.uniform (-360, 360), 1))]))
+        sw = float (ro.choice ([300.0, 340.0, 180.0, float (np.round (ro.uniform (20, 350), 1))])) * float (ro.choice ([1, 1, -1]))
+        arc = dict (k = 'a', n = n, radius = scale * 50.0, a1 = a1, a2 = a1 + sw, r = 1e-4 * seg_min, tag = None, open = True)
+        tr  = [100 * scale, 0, 0]
     spec = dict ( f = 7.0, geo = geo, media = ([[0, 0, 0]] if gnd else None), src = [], loads = []
                 , ends = ends, wires = wires, tol = tol, arc = arc, tol_from_model = tol_from_model)
     if arc:
-        spec ['geo'] = [arc] + geo
+        spec ['geo'] = [{k: v for k, v in arc.items () if k != 'open'}] + geo
         spec ['tr']  = [['translate', 1.0, tr, None]]
     if gnd and rng.random () < 0.15:
         # a curve standing on the ground plane: half circle with both ends grounded, or a helix rising from it
@@ -262,8 +270,9 @@ def expected (spec, m = None):
         a  = spec ['arc']
         nd = [p + off for p in georef.arc_nodes (a ['n'], a ['radius'], a ['a1'], a ['a2'])]
         pts += nd [1:-1]
-        pts.append (nd [0])
-        sizes.append (2)
+        if not a.get ('open'):
+            pts.append (nd [0])
+            sizes.append (2)
     return pts, sizes, n_gnd, n_int
 # end def expected
 
